@@ -106,6 +106,34 @@ func isTerminalWriter(info *types.Info, e ast.Expr) bool {
 	return false
 }
 
+// isWriterBufBytes: e is the content of the buffered writer's buffer — w.buf.Bytes() / w.buf.String(), possibly
+// converted, or a local defined once as that.
+func isWriterBufBytes(info *types.Info, e ast.Expr) bool {
+	for depth := 0; depth < 4; depth++ {
+		e = unparen(e)
+		switch t := e.(type) {
+		case *ast.Ident:
+			src := singleDefOf(info, info.ObjectOf(t))
+			if src == nil {
+				return false
+			}
+			e = src
+			continue
+		case *ast.CallExpr:
+			if tv, ok := info.Types[t.Fun]; ok && tv.IsType() && len(t.Args) == 1 {
+				e = t.Args[0]
+				continue
+			}
+			sel, ok := t.Fun.(*ast.SelectorExpr)
+			if ok && len(t.Args) == 0 && (sel.Sel.Name == "Bytes" || sel.Sel.Name == "String") && fieldOwner(info, sel.X) == "writer.buf" {
+				return true
+			}
+		}
+		return false
+	}
+	return false
+}
+
 func phaseOf(fnName string) string {
 	base := fnName
 	if i := strings.Index(base, "$"); i >= 0 {
